@@ -377,6 +377,65 @@ def hang_suspects():
     return suspects
 
 
+ENV_MATRIX = [
+    ("baseline", [], {}),
+    ("python -O", ["-O"], {}),
+    ("python -OO", ["-OO"], {}),
+    ("LC_ALL=C without UTF-8 mode", [], {"LC_ALL": "C", "LANG": "C", "PYTHONUTF8": "0", "PYTHONCOERCECLOCALE": "0"}),
+    ("LC_ALL=POSIX -X utf8=0", ["-X", "utf8=0"], {"LC_ALL": "POSIX", "LANG": "POSIX", "PYTHONCOERCECLOCALE": "0"}),
+    ("PYTHONHASHSEED=1", [], {"PYTHONHASHSEED": "1"}),
+    ("PYTHONHASHSEED=4242", [], {"PYTHONHASHSEED": "4242"}),
+    ("other working directory, -B -S off", ["-B"], {"__cwd__": "/"}),
+]
+
+
+def env_matrix(res: Result, docs):
+    """the observable result of the whole pipeline (parse, compile, stream from a file) must be the same under
+    every interpreter mode / process environment: each configuration runs harness/envprobe.py in a child
+    process on the same documents; the digests are compared with the baseline child, document by document"""
+    import subprocess
+    import tempfile
+    docs = [d for d in docs if not impl.is_existing_path(d)]
+    enc = []
+    for d in docs:
+        try:
+            d.encode("utf-8")
+            enc.append(d)
+        except UnicodeEncodeError:
+            pass
+    docs = enc
+    with tempfile.TemporaryDirectory(prefix="gvenv") as tmp:
+        jf = os.path.join(tmp, "docs.json")
+        with open(jf, "w", encoding="utf-8") as fh:
+            json.dump(docs, fh)
+        outs = {}
+        for name, flags, env_extra in ENV_MATRIX:
+            env = {**os.environ, "PYTHONPATH": os.path.join(core.REPO, "python")}
+            env.update({k: v for k, v in env_extra.items() if not k.startswith("__")})
+            scratch = os.path.join(tmp, "s" + str(len(outs)))
+            os.makedirs(scratch)
+            try:
+                pr = subprocess.run(["/venv/bin/python", *flags, os.path.join(core.VERIF, "harness", "envprobe.py"), jf, scratch],
+                                    capture_output=True, text=True, env=env, timeout=600, cwd=env_extra.get("__cwd__", core.VERIF))
+                lines = pr.stdout.splitlines() if pr.returncode == 0 else None
+                err = pr.stderr[-300:]
+            except subprocess.TimeoutExpired:
+                lines, err = None, "timeout"
+            outs[name] = (lines, err)
+        base, berr = outs["baseline"]
+        for name, (lines, err) in outs.items():
+            res.note({"environment": name, "documents": len(docs)}, True)
+            if lines is None or base is None or len(lines) != len(docs):
+                res.fail("environment", {"environment": name, "source": docs[0] if docs else ""}, err or berr, "the probe runs",
+                         f"the pipeline cannot be run at all under: {name}")
+                continue
+            for d, a, b in zip(docs, lines, base):
+                if a.split(" ")[0] != b.split(" ")[0]:
+                    res.fail("environment", {"environment": name, "source": d}, a, b,
+                             f"parse / compile / stream-from-file of this document gives a different result under: {name}")
+                    break
+
+
 def run_C01(ctx: Ctx) -> Result:
     rng = ctx.rng
     docs = streams.corpus_docs() + streams.doc_mix(rng, ctx.n(1200, 12000)) + unicode_soup(rng, ctx.n(600, 6000))
@@ -401,6 +460,8 @@ def run_C01(ctx: Ctx) -> Result:
         return res
     res = streams.parse_stream(docs, proj_outcome, known=ctx.known_seen, dialects=("en",))
     res.stats["hang_probe_inputs"] = len(suspects) + len(docs)
+    # the pipeline is total under every interpreter mode / locale, not only the one this check runs in
+    env_matrix(res, streams.corpus_docs()[: ctx.n(150, 100000)] + ["# language: fr\nFonctionnalité: é😀\n  Scénario: s\n    Soit <a>\n"])
     # direct oracle on the implementation: outcome form and linear work
     checked = 0
     for src in docs:
@@ -628,6 +689,12 @@ def run_C05(ctx: Ctx) -> Result:
         if pr.returncode != 0 or pr.stdout.strip() != want_hash:
             res.fail("dialects", {"environment": env_extra}, (pr.stdout + pr.stderr)[-300:], want_hash,
                      "the language table loaded by the package depends on the process locale (or fails to load)")
+    # every printable ASCII character (and some others) around / inside the name of a language header
+    hdr_docs = []
+    for c in [chr(x) for x in range(0x20, 0x7f)] + ["\t", "é", "ſ", "K", "\u00a0", "\u3000", "٣", "𝐚"]:
+        for h in (f"# language: en{c}", f"# language: {c}en", f"# language: e{c}n", f"#language:{c}", f"# language: [fr{c}", f"# language: fr{c}fr"):
+            hdr_docs.append(h + "\nFeature: f\n")
+    res.merge(streams.parse_stream(hdr_docs, proj_keywords, modes=(False,)))
     # complete enumeration: dialect × keyword × role × layout through the real matcher vs the model
     title_roles = [("feature", "FeatureLine"), ("rule", "RuleLine"), ("background", "BackgroundLine"),
                    ("scenario", "ScenarioLine"), ("scenarioOutline", "ScenarioLine"), ("examples", "ExamplesLine")]
@@ -1122,7 +1189,10 @@ def interleave_check(ctx: Ctx, pool) -> Result:
     import threading
     res = Result()
     rng = ctx.rng
-    small = [pool[0], pool[1], pool[3], pool[6], pool[2], pool[11]]
+    # two documents made of long look-ahead runs: concurrent parsers are then inside a look-ahead at the same time
+    la1 = "Feature: a\n  @t1\n  # c\n\n  @t2\n  Scenario Outline: s\n    Given <a>\n    @e1\n\n    # k\n    @e2\n    Examples:\n      | a |\n      | 1 |\n  @x\n\n  @y\n  Scenario: z\n"
+    la2 = "Feature: b\n  @r1\n\n  @r2\n  # z\n  Rule: q\n    @s\n    # w\n    @u\n\n    Scenario: w\n      Given b\n    @v\n    @w\n\n    Scenario: last\n"
+    small = [pool[0], pool[1], pool[3], pool[6], pool[2], pool[11], la1, la2, la1, la2]
 
     class Gate:
         def __init__(self, schedule, n):
@@ -1549,6 +1619,9 @@ def shape_errors(env):
 def run_C17(ctx: Ctx) -> Result:
     res = streams.events_stream(ctx.rng, ctx.n(500, 5000))
     rng = ctx.rng
+    # envelopes of FILES (non-ASCII text included) are the same under every interpreter mode / locale
+    env_matrix(res, [d for d in streams.corpus_docs() if any(ord(c) > 127 for c in d)][: ctx.n(40, 1000)]
+               + ["# language: ru\nФункция: ф\n  Сценарий: с\n    Дано а\n", "Feature: ascii\n  Scenario: s\n    Given a\n", "Feature: é\n  Scenario: 😀\n    Given | x\n      | ☃ |\n"])
     corpus_cli_events(res, limit=None if ctx.thorough else 12)
     # the CLI's option mapping: all 8 combinations on two files vs the stream API in-process
     from gherkin.stream.source_events import SourceEvents as _SE
@@ -1644,6 +1717,10 @@ def run_C18(ctx: Ctx) -> Result:
     for _ in range(ctx.n(500, 5000)):
         docs.append("Feature: f\n  Scenario Outline: o\n    Given <a>\n" +
                     "".join(pieces[ctx.rng.choice("TTCBESRXW")] for _ in range(ctx.rng.randrange(2, 14))))
+    # very long look-ahead runs (any bound on the number of buffered lines shows here): ~1 000 … 9 000 lines (thorough: 20 000)
+    for n_, end in ((1030, "E"), (4200, "S"), (ctx.n(9000, 20000), "E")):
+        docs.append("Feature: f\n  Scenario Outline: o\n    Given <a>\n" + pieces["T"] +
+                    "".join(pieces["TCB"[i % 3]] for i in range(n_)) + pieces[end])
     for n_ in (15, 16, 17, 18, 25, 40, 70):     # long runs through the look-ahead queue
         for end in "ESRX":
             docs.append("Feature: f\n  Scenario Outline: o\n    Given <a>\n" + pieces["T"] +
